@@ -21,4 +21,49 @@ def sliceGeneral (a : Annotation) (start stop : Int) : Annotation :=
     nterm := if start > 0 then none else a.nterm
     cterm := if stop < (a.seq.length : Int) then none else a.cterm }
 
+
+/-! ### abstract mass of an annotation and of the pieces of a partition (C07) -/
+
+/-- sum of a per-modification weight over an optional list -/
+def modSum (m : Mod → Rat) : Option (List Mod) → Rat
+  | none => 0
+  | some l => (l.map m).sum
+
+/-- sum over the modifications of all intervals -/
+def intervalSum (m : Mod → Rat) : Option (List Interval) → Rat
+  | none => 0
+  | some l => (l.map fun iv => modSum m iv.mods).sum
+
+/-- abstract mass of an annotation: additive per-residue weight `w` (residue + its modifications + residue-targeted static
+rules, under the annotation's isotope labels), every labile / unknown-position / terminal / interval modification once,
+a contribution `t` of the static rules with terminal targets, and one water `h` -/
+def amass (w : Char × List Mod → Rat) (m : Mod → Rat) (t : Option (List Mod) → Rat) (h : Rat) (a : Annotation) : Rat :=
+  weight w (residues a) + modSum m a.labile + modSum m a.unknown + modSum m a.nterm + modSum m a.cterm +
+    intervalSum m a.intervals + t a.static + h
+
+/-- consecutive pieces `[s,e₁), [e₁,e₂), …` -/
+def piecesFrom (a : Annotation) : Nat → List Nat → List Annotation
+  | _, [] => []
+  | s, e :: rest => slice a (s : Int) (e : Int) :: piecesFrom a e rest
+
+/-- `s < e₁ < e₂ < … ≤ n` -/
+def Increasing : Nat → List Nat → Nat → Prop
+  | s, [], n => s ≤ n
+  | s, e :: rest, n => s < e ∧ Increasing e rest n
+
+/-- the last cut -/
+def lastOf : Nat → List Nat → Nat
+  | s, [] => s
+  | _, e :: rest => lastOf e rest
+
+/-- `k` times `h` -/
+def times : Nat → Rat → Rat
+  | 0, _ => 0
+  | k + 1, h => times k h + h
+
+/-- what every piece carries besides its residues, its terminal mods and its water: the labile and unknown-position
+modifications and the terminal static rules of the parent (copied by `slice`) -/
+def inherited (m : Mod → Rat) (t : Option (List Mod) → Rat) (a : Annotation) : Rat :=
+  modSum m a.labile + modSum m a.unknown + t a.static
+
 end Pept.Reorder
